@@ -37,7 +37,8 @@ CfgsTiny     == {Base, [Base EXCEPT !.io = <<"null", "pipe", "raw">>, !.cwd = "o
                                !.pg = "own", !.pre = <<0>>, !.nargs = 2, !.nenv = 2],
                  [Base EXCEPT !.cwd = "missing"], [Base EXCEPT !.pre = <<0, 13>>], [Base EXCEPT !.pre = <<-1>>],
                  [Base EXCEPT !.prog = "missing"], [Base EXCEPT !.uid = "other", !.gid = "other"],
-                 [Base EXCEPT !.uid = "other"], [Base EXCEPT !.gid = "other"]}
+                 [Base EXCEPT !.uid = "other"], [Base EXCEPT !.gid = "other"],
+                 [Base EXCEPT !.io = <<"pipe", "inherit", "inherit">>]}
 
 Fl(p, s, ks, es) == {[p |-> p, sys |-> s, k |-> k, err |-> e] : k \in ks, e \in es}
 \* one errno per call (quick); -3 = the read is forced to return 3 (short read)
